@@ -1,5 +1,3 @@
-// Kani harnesses mounted inside src/de_error.rs (child module: sees private items)
-
 // Kani harnesses mounted inside src/de_error.rs (child module: sees private items).
 //
 // C16: a scanner error is located by the parser's mark: 1-based column, CHARACTER offset (not the
@@ -32,6 +30,3 @@ fn c16_scan_error_location() {
     }
     std::mem::forget(e);
 }
-
-// concrete-playback slot: bin/check writes the solver counterexample here as a unit test for native replay
-include!("/verif/.build/playback/de_error_pb.rs");
